@@ -40,7 +40,7 @@ def check_pixel(project: Project, rep, weight, kernel, sigma, skew, label):
     rep.analysed(fi)
     tag = f"{label}, skew={skew}"
     for ev in I.log:
-        if ev["kind"] == "shape-error":
+        if ev["kind"] == "shape-error" and ev["fi"] is fi:
             rep.refuted("PI-AXIS", fi, ev["node"], f"{tag}: shapes disagree for some grid: {ev['message']}")
         if ev["kind"] == "reshape" and ev.get("verdict") == "scrambled":
             rep.refuted("PI-AXIS", fi, ev["node"],
